@@ -26,6 +26,9 @@ def run(ctx):
     ctx.build(["vh-graph"])
     if ctx.replay:
         return replay(ctx)
+    # second build with overflow checks and debug assertions (the planner has debug_assert!s; a panic
+    # where the contract demands a plan or an error is a violation in the builds that compile them in)
+    ctx.build(["vh-graph"], profile="checked")
     traces = []
     # (1) exhaustive: one operator, 2 values + 1 constant, every input/output shape incl. omitted
     #     inputs, repeated inputs, unused outputs, self-dependencies, captures: all requests.
@@ -38,6 +41,10 @@ def run(ctx):
     t2 = ctx.path("plan_q2.ndjson")
     ctx.harness("vh-graph", ["plan", "--graphs", g2, "--out", t2, "--sample-requests", 3 if ctx.quick else 60])
     traces.append(t2)
+    for tag, gfile, k in (("q1", g1, 5 if ctx.quick else 0), ("q2", g2, 3 if ctx.quick else 60)):
+        tc = ctx.path("plan_%s_checked.ndjson" % tag)
+        ctx.harness("vh-graph", ["plan", "--graphs", gfile, "--out", tc, "--sample-requests", k], profile="checked")
+        traces.append(tc)
     # (3) random larger graphs from TLC simulation of the same generator
     num = 1500 if ctx.quick else 40000
     g3, n3 = gen(ctx, "graph/GraphGenSim.cfg", "graphs_sim.jsonl", spec="graph/GraphGenSim",
